@@ -76,6 +76,7 @@ Monitor *mk_c01_integrity(World *w);
 Monitor *mk_c02_delivery(World *w, bool clean_a, bool recovery_b, const std::string &prop = "C02");
 Monitor *mk_c16_redeliver(World *w);
 Monitor *mk_c15_fragsize(World *w);
+Monitor *mk_c08_names(World *w);
 Monitor *mk_c10_wellformed(World *w);
 Monitor *mk_c14_ledger(World *w, bool check_held);
 Monitor *mk_probes(World *w);
